@@ -255,6 +255,7 @@ class World(object):
         self.links = []
         self.sockets = []
         self.connects = []          # (addr, outcome)
+        self.connect_log = []       # (seq, outcome, thread name)
         self.threads = []
         self.excepthook_calls = []
         self.blocked = []
@@ -277,6 +278,8 @@ class World(object):
         beh = self.servers.pop(0) if self.servers else self.default
         if beh is None or beh == 'refuse':
             self.connects.append((addr, 'refused'))
+            self.connect_log.append((self.next_seq(), 'refused',
+                                     threading.current_thread().name))
             raise ConnectionRefusedError(errno.ECONNREFUSED,
                                          'Connection refused')
         script = beh(addr) if callable(beh) and not hasattr(beh, 'attach') \
@@ -284,6 +287,8 @@ class World(object):
         link = Link(self, addr, script, self.plan)
         self.links.append(link)
         self.connects.append((addr, 'accepted'))
+        self.connect_log.append((self.next_seq(), 'accepted',
+                                 threading.current_thread().name))
         link.in_script = True
         try:
             script.attach(link)
